@@ -13,7 +13,7 @@ from . import rules_type as ty
 PROPERTIES = {
     'C08': {
         'rules': [safe.rule_inv_arith, safe.rule_inv_panic, safe.rule_inv_unsafe, safe.rule_ptr_guarded_call, safe.rule_auth_node_free, safe.rule_deque_shape,
-                  stale.rule_stale_removal, stale.rule_admit_live, must.rule_wo_node, must.rule_unlink_both, ty.rule_type_witnesses],
+                  stale.rule_stale_removal, stale.rule_admit_live, must.rule_wo_node, must.rule_unlink_both, fx.rule_sketch_structure, ty.rule_type_witnesses],
         'explanation': 'Discipline, not absence of every bad state: complete inventories of arithmetic asserts, panic-capable calls and unsafe code, each '
                        'discharged automatically or by one reasoned table line; unsafe impl bounds; every unsafe list operation is membership-'
                        'guarded; nodes are freed only by their owner roles, never popped in the concurrent cache; maintenance removes by identity '
